@@ -9,7 +9,7 @@ import sympy as sp
 from ..facts import c_intrinsic, KeyObj
 from ..model import dotted_name, src
 from ..report import AnalysisError, Where
-from ..sym import Ev, Tup, Obj, DictV, LibV, RaisedV, BoundLib, MatchV, as_sym, is_sym
+from ..sym import Ev, Tup, Obj, DictV, LibV, RaisedV, BoundLib, MatchV, as_sym, is_sym, open_kw, kw_accept, whitespace_sep
 from .C20 import Lines
 
 QI = "cij.io.traditional.qha_input"
@@ -107,6 +107,7 @@ def io_intrinsics(files, opened):
     def open_(ev, a, k):
         name = a[0] if isinstance(a[0], str) else getattr(a[0], "text", str(a[0]))
         mode = a[1] if len(a) > 1 else k.get("mode", "r")
+        open_kw(k)
         opened.append((name, mode))
         if mode in ("w", "wt"):
             files[name] = OutFile()
@@ -239,17 +240,39 @@ def r_elast(ctx, model):
                               "lattice rows): header field order, volume column, key/column pairing or the lattice block", key=f"elast.{name}")
 
 
-def r_fillcmd(ctx, model):
+def click_params(fdef):
+    """click decorators of a command -> {parameter name: {'kind': option|argument, 'names': [...], <keyword ast nodes>}}"""
+    out = {}
+    for d in fdef.decorator_list:
+        if not isinstance(d, ast.Call):
+            continue
+        kind = (dotted_name(d.func) or "").rsplit(".", 1)[-1]
+        if kind not in ("option", "argument"):
+            continue
+        names = [a.value for a in d.args if isinstance(a, ast.Constant) and isinstance(a.value, str)]
+        long = [n for n in names if n.startswith("--")] or names
+        if not long:
+            continue
+        pname = long[0].lstrip("-").replace("-", "_").lower()
+        explicit = [n for n in names if not n.startswith("-")]
+        if kind == "option" and explicit:
+            pname = explicit[0]
+        out[pname] = dict(kind=kind, names=names, **{k.arg: k.value for k in d.keywords if k.arg})
+    return out
+
+
+def fold_fillcmd(ctx, model):
+    """`cij fill` folded on reference table A with one marker per command-line option; what reaches fill_cij is bound to
+    fill_cij's own signature, so positional, keyword and **kwargs forwarding are judged alike"""
     patch_lines()
     ref = "cij.cli.fill:main"
     f = model.func(ref)
-    w = model.where(ref, f)
     out = []
     cap = {}
 
     class SIO:
-        def __init__(self):
-            self.text = ""
+        def __init__(self, text=""):
+            self.text = text
 
         def sym_getattr(self, ev, name, node, mod):
             return BoundLib(f"sio.{name}", self)
@@ -260,16 +283,51 @@ def r_fillcmd(ctx, model):
                 return BoundLib("filled.to_string", self)
             raise ev.err(name, node, mod)
 
+    params = click_params(f)
+    opts = {p: ("in.dat" if p == "input02" else f"OPT_{p}") for p in params}
+    fill = model.func("cij.util.fill:fill_cij")
+    fill_params = [a.arg for a in fill.args.args]
+
+    def fill_cij(ev, a, k):
+        if len(a) > len(fill_params):
+            raise RaisedV("TypeError")
+        bound = dict(zip(fill_params, a))
+        for kk, v in k.items():
+            if kk in bound or kk not in fill_params:
+                raise RaisedV("TypeError")
+            bound[kk] = v
+        cap["fill"] = bound
+        return Filled()
+
+    def read_table(ev, a, k):
+        src_ = a[0] if a else k.get("filepath_or_buffer")
+        cap.update(table_text=getattr(src_, "text", None), read_kw={kk: k.get(kk) for kk in ("header", "index_col", "sep", "delim_whitespace")})
+        kw_accept(k, "engine", lambda v: True)
+        return "TABLE"
+
     intr = io_intrinsics({"in.dat": TABLE_A}, [])
     intr.update({
         "sys.stdout.write": lambda ev, a, k: out.append(a[0]) or None,
-        "io.StringIO": lambda ev, a, k: SIO(), "sio.write": lambda ev, a, k: setattr(a[0], "text", a[0].text + a[1]), "sio.seek": lambda ev, a, k: None,
-        "pandas.read_table": lambda ev, a, k: cap.update(table_text=a[0].text, read_kw=dict(k)) or "TABLE",
-        "cij.util.fill:fill_cij": lambda ev, a, k: cap.update(fill=(a, dict(k))) or Filled(),
+        "io.StringIO": lambda ev, a, k: SIO(a[0] if a else ""), "sio.write": lambda ev, a, k: setattr(a[0], "text", a[0].text + a[1]), "sio.seek": lambda ev, a, k: cap.setdefault("seek", []).append(a[1]),
+        "pandas.read_table": read_table, "pandas.read_csv": read_table,
+        "cij.util.fill:fill_cij": fill_cij,
         "filled.to_string": lambda ev, a, k: cap.update(to_string=dict(k)) or "<FILLED TABLE>",
     })
     ev = Ev(model, {}, intr, ctx=ctx)
-    ev.call_def(f, model.mods["cij.cli.fill"], ref, [], {"input02": "in.dat", "system": "cubic", "ignore_rank": False, "ignore_residuals": False, "drop_atol": sp.Rational(1, 10 ** 8)})
+    try:
+        ev.call_def(f, model.mods["cij.cli.fill"], ref, [], dict(opts))
+    except RaisedV as e:
+        cap["raised"] = e.exc_name
+    return f, out, cap, opts, fill_params
+
+
+def r_fillcmd(ctx, model):
+    ref = "cij.cli.fill:main"
+    f, out, cap, opts, fill_params = fold_fillcmd(ctx, model)
+    w = model.where(ref, f)
+    if "raised" in cap:
+        ctx.violation("fillcmd.raises", w, "cij fill completes on a well-formed table", f"raises {cap['raised']}", f"the fill command raises {cap['raised']} on a well-formed static table")
+        return
     lines = TABLE_A.splitlines(keepends=True)
     text = "".join(x for x in out if isinstance(x, str))
     want = lines[0] + lines[1] + "<FILLED TABLE>\n" + "".join(lines[5:])
@@ -278,11 +336,18 @@ def r_fillcmd(ctx, model):
     ctx.check(cap.get("table_text") == "".join(lines[2:5]), "exactly the column-name line and the N volume rows go to the table parser", w, expected=repr("".join(lines[2:5])),
               found=repr(cap.get("table_text")), explanation="the number of rows handed to the table parser is not N+1 with N read from field 2 of line 2",
               key="fillcmd.rows")
-    a, k = cap.get("fill", ((), {}))
-    ok = len(a) == 1 and a[0] == "TABLE" and k.get("system") == "cubic" and "input02" not in k and set(k) == {"system", "ignore_rank", "ignore_residuals", "drop_atol"}
-    ctx.check(ok and cap.get("to_string", {}).get("index") is False and cap.get("read_kw", {}).get("header") == 0, "table parsed with a header row, filled with the options, printed without index", w,
-              expected="read_table(header=0); fill_cij(table, **options); to_string(index=False)", found=f"fill kwargs {sorted(k)}; to_string {cap.get('to_string')}; read {cap.get('read_kw')}",
-              explanation="the table is parsed/printed with an extra index column or the options do not reach fill_cij", key="fillcmd.options")
+    bound = cap.get("fill", {})
+    wrong = [f"{p} <- {bound.get(p)!r}" for p in fill_params[1:] if p in opts and bound.get(p) != opts[p]]
+    wrong += [f"{p} <- {v!r}" for p, v in bound.items() if p not in opts and p != fill_params[0]]
+    ok = bound.get(fill_params[0]) == "TABLE" and not wrong and {"system", "ignore_rank", "ignore_residuals", "drop_atol"} <= set(bound)
+    rk = cap.get("read_kw", {})
+    read_ok = (rk.get("header") in (None, "infer") or rk.get("header") == 0) and rk.get("index_col") in (None, False) \
+        and (whitespace_sep(rk.get("sep")) or rk.get("delim_whitespace") is True)
+    ctx.check(ok and cap.get("to_string", {}).get("index") is False and read_ok, "table parsed with a header row and no index column, filled with the like-named options, printed without index", w,
+              expected="read_table(header=0, index_col=None, sep=whitespace); every option reaches the like-named fill_cij parameter; to_string(index=False)",
+              found=f"fill_cij receives {bound}; mismatched: {wrong}; to_string {cap.get('to_string')}; read {rk}",
+              explanation="the table is parsed/printed with an extra index column, or a command-line option reaches a different parameter of fill_cij "
+                          "(or none) than the one it is named after", key="fillcmd.options")
 
 
 RULES = [
